@@ -435,6 +435,7 @@ func (r *transport) handleCacheHit(
 	}
 
 revalidate:
+	clientReq := req
 	req = withConditionalHeaders(req, stored.Data.Header)
 	resp, start, end, err := r.roundTripTimed(req)
 	if err == nil && resp.StatusCode == http.StatusNotModified &&
@@ -456,6 +457,8 @@ revalidate:
 		Refs:      refs,
 		RefIndex:  refIndex,
 		Freshness: freshness,
+
+		ClientRequest: clientReq,
 	}
 	if err == nil && resp.StatusCode == http.StatusNotModified {
 		// Freshening writes the entry that was looked up before the origin
@@ -505,6 +508,7 @@ func (r *transport) handleStaleWhileRevalidate(
 	// by the configured timeout, not by the caller's context.
 	req2 := req.Clone(context.WithoutCancel(req.Context()))
 	req2.Cancel = nil //nolint:staticcheck // deprecated, but still honoured by net/http
+	clientReq := req2 // the client's request (a copy of it): variants are filed under its fields
 	req2 = withConditionalHeaders(req2, stored.Data.Header)
 	validates := validatesStored(req2, stored.Data.Header)
 	identity := identityOf(stored)
@@ -521,7 +525,7 @@ func (r *transport) handleStaleWhileRevalidate(
 	//
 	// Open a discussion at github.com/bartventer/httpcache/issues if your use case requires
 	// guaranteed completion.
-	go r.backgroundRevalidate(req2, stored, urlKey, freshness, ccReq, validates, identity)
+	go r.backgroundRevalidate(req2, clientReq, stored, urlKey, freshness, ccReq, validates, identity)
 	internal.SetAgeHeader(stored.Data, r.clock, freshness.Age)
 	internal.CacheStatusStale.ApplyTo(stored.Data.Header)
 	r.logger.LogCacheStaleRevalidate(req, urlKey, internal.MiscFunc(func() internal.Misc {
@@ -535,7 +539,7 @@ func (r *transport) handleStaleWhileRevalidate(
 }
 
 func (r *transport) backgroundRevalidate(
-	req *http.Request,
+	req, clientReq *http.Request,
 	stored *internal.Response,
 	urlKey string,
 	freshness *internal.Freshness,
@@ -596,6 +600,8 @@ func (r *transport) backgroundRevalidate(
 			Refs:      refs,
 			RefIndex:  refIndex,
 			Freshness: freshness,
+
+			ClientRequest: clientReq,
 		}
 		if resp.StatusCode == http.StatusNotModified {
 			// (as in handleCacheHit: the check is one step with the write-back)
